@@ -1056,7 +1056,11 @@ func sortsOwnParam(fn *ssa.Function) bool {
 
 // c15Globals (C15/R11).
 func c15Globals(c *Ctx, p *Prog, eff *effects, reach map[*ssa.Function]bool) {
-	const R = "C15/R11"
+	globalsRule(c, p, "C15/R11", reach, 100)
+}
+
+// globalsRule: no function in reach leaves a mark on package-level state of the module (see C15/R11).
+func globalsRule(c *Ctx, p *Prog, R string, reach map[*ssa.Function]bool, floor int) {
 	allowed := map[string]string{}
 	n, nF := 0, 0
 	var fns []*ssa.Function
@@ -1176,6 +1180,20 @@ func c15Globals(c *Ctx, p *Prog, eff *effects, reach map[*ssa.Function]bool) {
 			}
 		})
 	}
-	c.OK(R, "globals:scan", "", fmt.Sprintf("%d module functions reachable from the command, %d stores to package-level variables of the module", nF, n))
-	c.Floor(R, "module functions scanned for stores to package-level variables", nF, 100)
+	// package-level storage used as scratch: a slice of a package-level array or slice variable handed to something
+	// that writes into its argument (append, copy, the Append* family of the standard library)
+	for _, fn := range fns {
+		if fn.Pkg == nil || !strings.HasPrefix(fn.Pkg.Pkg.Path(), modPath) || fn.Name() == "init" || onceFns[fn] {
+			continue
+		}
+		ins, gs, ws := scratchGlobals(fn, func(g *ssa.Global) bool { return g.Pkg != nil && strings.HasPrefix(g.Pkg.Pkg.Path(), modPath) },
+			func(f *types.Func) bool { return !strings.HasPrefix(f.Pkg().Path(), modPath) })
+		for i, in := range ins {
+			n++
+			name := strings.TrimPrefix(gs[i].Pkg.Pkg.Path(), modPath+"/") + "." + gs[i].Name()
+			c.Bad(R, fmt.Sprintf("%s:scratch %s#%d", fnName(fn), name, i+1), p.pos(in.Pos()), "the storage of the package-level variable "+name+" is handed to "+ws[i]+", which writes into it: two calls that overlap (cells are formatted and summarised from several goroutines) scribble over each other's digits, and a result that still aliases the scratch space changes under its holder")
+		}
+	}
+	c.OK(R, "globals:scan", "", fmt.Sprintf("%d module functions reachable, %d stores to package-level variables of the module", nF, n))
+	c.Floor(R, "module functions scanned for stores to package-level variables", nF, floor)
 }
